@@ -711,6 +711,7 @@ BTreeIter_next(BTreeIter *bi, PyObject *args)
     BTreeItems *items = bi->pitems;
     int i = items->currentoffset;
     Bucket *bucket = items->currentbucket;
+    int release = 0;    /* give up the iterator's reference to bucket? */
 
     if (bucket == NULL)    /* iteration termination is sticky */
         return NULL;
@@ -736,8 +737,8 @@ BTreeIter_next(BTreeIter *bi, PyObject *args)
     if (bucket == items->lastbucket && i >= items->last)
     {
         /* Next call should terminate the iteration. */
-        Py_DECREF(items->currentbucket);
         items->currentbucket = NULL;
+        release = 1;
     }
     else
     {
@@ -746,7 +747,7 @@ BTreeIter_next(BTreeIter *bi, PyObject *args)
         {
             Py_XINCREF(bucket->next);
             items->currentbucket = bucket->next;
-            Py_DECREF(bucket);
+            release = 1;
             i = 0;
         }
         items->currentoffset = i;
@@ -754,6 +755,12 @@ BTreeIter_next(BTreeIter *bi, PyObject *args)
 
 Done:
     PER_UNUSE(bucket);
+    /* The iterator's reference may be the last one (the tree has dropped or
+    * reloaded the nodes that pointed to this bucket):  let go of it only
+    * after the bucket has been unpinned.
+    */
+    if (release)
+        Py_DECREF(bucket);
     return result;
 }
 
